@@ -429,7 +429,7 @@ func (w *World) startGC() {
 				return
 			}
 			ref := controllerOwner(accessor(o))
-			if ref == nil || ownerExists(ns, ref) {
+			if ref == nil || ownerExists(ns, ref) || accessor(o).GetLabels()["foreign"] == "true" {
 				return
 			}
 			w.Sim.Stats["gc.delete."+string(res)]++
@@ -607,8 +607,13 @@ func (w *World) createForeignPod(fp *ForeignPod) {
 		Spec: corev1.PodSpec{NodeName: "node-foreign", Containers: []corev1.Container{{Name: "c", Image: "busybox"}}}}
 	if fp.OwnerJob != "" {
 		ctrl := true
-		// controlled by something that is not the Job (the GC actor leaves unknown kinds alone)
-		pod.OwnerReferences = []metav1.OwnerReference{{APIVersion: "apps/v1", Kind: "ReplicaSet", Name: fp.OwnerJob, UID: "uid-foreign-owner", Controller: &ctrl}}
+		if fp.OwnerJob == "other" {
+			// controlled by something that is not a Job at all
+			pod.OwnerReferences = []metav1.OwnerReference{{APIVersion: "apps/v1", Kind: "ReplicaSet", Name: fp.OwnerJob, UID: "uid-foreign-owner", Controller: &ctrl}}
+		} else {
+			// controlled by another Job object of the same name (e.g. an earlier incarnation)
+			pod.OwnerReferences = []metav1.OwnerReference{{APIVersion: "execution.furiko.io/v1alpha1", Kind: "Job", Name: fp.OwnerJob, UID: "uid-earlier-incarnation", Controller: &ctrl}}
+		}
 	}
 	created, err := w.API.Create("foreign", pod)
 	if err != nil {
